@@ -139,6 +139,7 @@ def run(ctx):
     guard_auth(ctx, facts)
     guard_cert(ctx, facts)
     who_identity(ctx, facts)
+    end_entity_cert(ctx, facts)
     tls_arms(ctx, facts)
     handlers_no_headers(ctx, facts)
     ctx.assume("axum::Router::layer wraps exactly the routes present when it is applied; tower/axum/rustls behave as documented")
@@ -307,6 +308,35 @@ IDENTITY_MAKERS = {
     "<net::server::ClientIdentity<I> as std::convert::TryFrom<&hyper::header::HeaderValue>>::try_from": "parses the header value",
     "<net::server::ClientIdentity<I> as std::clone::Clone>::clone": "derive(Clone): copies an existing identity",
 }
+
+
+def end_entity_cert(ctx, facts):
+    """TLS proves possession of the key of the FIRST certificate of the presented chain only; later entries are whatever
+    the client chose to append."""
+    ctx.rule("WHO-identity (certificate): every call of NetworkConfig::identify_cert outside tests is given the end-entity certificate of the connection, i.e. the first element of rustls' peer_certificates() (`.and_then(<[_]>::first)`, `.get(0)` or `[0]`), not another element of the presented chain")
+    n = 0
+    for b in sorted(facts.non_test_bodies(), key=lambda x: x.path):
+        for bb, t in b.calls():
+            if not (F.callee(t)[0] or "").endswith("identify_cert"):
+                continue
+            n += 1
+            old = flow.CLOSURE_DEFS
+            flow.CLOSURE_DEFS = True
+            try:
+                e = flow.expr_of(b, t["args"][1], max_depth=12)
+                s_ = str(e)
+                # a closure handed to and_then / map: what it returns counts
+                for m_ in re.finditer(r"\('closure', '([^']+)'\)", s_):
+                    cb = facts.bodies.get(m_.group(1))
+                    if cb is not None:
+                        s_ += " " + str(flow.expr_of(cb, {"cp": [0]}, max_depth=8))
+            finally:
+                flow.CLOSURE_DEFS = old
+            from_chain = "peer_certificates" in s_
+            first = ("<impl [T]>::first" in s_ and "<impl [T]>::last" not in s_) or re.search(r"<impl \[T\]>::get'.*\('const', 0\)", s_) is not None or re.search(r"Index::index'.*\('const', 0\)", s_) is not None
+            ok = from_chain and first
+            ctx.ob("WHO-identity", f"end-entity-cert@{b.root.split('::')[-1]}#{n}", ok, "identify_cert(peer_certificates().first())" if ok else ("the identity is looked up from a certificate that is not taken from the connection's verified chain" if not from_chain else "the identity is looked up from a chain element other than the first: a peer that owns one trusted key can append another peer's public certificate and be taken for that peer"), site_of(b, bb))
+    ctx.floor("WHO-identity", "identify_cert call sites", n, 1)
 
 
 def who_identity(ctx, facts):
